@@ -13,6 +13,7 @@ Driver for C39: runs the part-set model with `H := SHA-256` on op lines.
   add <i> [mod…]                  cur.AddPart(copy of source part i with mods) → class n=<count>
   vb <i> [mod…]                   Part.ValidateBasic of the same mutated part
   state | header | getpart <i> | read <chunk>
+  race …                          (harness-only concurrency stress; constant answer `raced`)
 
 mods (applied left to right): idx=<int> pidx=<int> ptot=<int> bytes=<hex> leaf=<hex>
   flipb=<pos>:<mask> flipl=<pos>:<mask> flipa=<k>:<pos>:<mask> dropa adda=<hex>
@@ -207,6 +208,8 @@ def step (st : St) (t : List String) : St × String :=
     | some none, some _ => (st, "panic:nil")
     | none, some _ => (st, "err:nosrc")
     | _, _ => (st, "err:badop")
+  -- search support: the concurrency stress only feeds the harness's oracle; the model is sequential
+  | "race" :: _ => (st, "raced")
   | _ => (st, "err:badop")
 
 end GnoVerif.Drive.C39
